@@ -212,8 +212,9 @@ def quiescent_hang(case, h, rounds=5):
     idle = all(c.get("ready", 1) == 0 for c in certs)
     live = [p for p in case.job_pids() if case.alive(p)]
     notfinal = [k for k, s in (certs[-1].get("jobs") or {}).items() if s not in ("DONE", "ERROR")]
-    if same and idle and not live and not case.token_files() and notfinal:
-        return f"scheduler quiescent for {len(certs)} certificates, no live job process, no token file, jobs not final: {certs[-1].get('jobs')}"
+    if same and idle and not live and notfinal:
+        # (token files may be left: with no live job process of the workspace nobody holds them legitimately)
+        return f"scheduler quiescent for {len(certs)} certificates, no live job process, token files {case.token_files() or 'none'}, jobs not final: {certs[-1].get('jobs')}"
     return None
 
 
